@@ -195,6 +195,8 @@ def _num(oname, lname, vals, nsteps, hyper):
 
 
 def replay(p):
+    if p.get("kind") == "roto":
+        return _roto_num(p["which"], p["freq"], p["values"]["a"], p["values"]["b"], p["values"]["c"], p["f0"])
     return _num(p["opt"], p["layout"], p["values"], p["steps"], p["hyper"])
 
 
@@ -255,6 +257,98 @@ def work(item):
         return [{"name": name, "status": "unsupported", "detail": f"{e!r} {traceback.format_exc(limit=6)[-600:]}"}]
 
 
+# ------------------------------------------------------------------ Rotosolve / Rotoselect closed forms
+ROTO_FREQS = [1.0, 0.5, 2.0, 1.5, 0.25, 3.0]
+
+
+def _sinusoid(S, a, b, c, f):
+    def E(x):
+        t = S.lift(x) if not isinstance(x, sx.SymC) else x
+        if isinstance(t, np.ndarray):
+            t = t.item()
+        t = t * f
+        return a * t.cos() + b * t.sin() + c
+
+    return E
+
+
+def _roto_num(kind, f, a, b, c, give_f0):
+    """concrete replay: the real closed form against a dense scan of one period"""
+    E = lambda x: a * np.cos(f * x) + b * np.sin(f * x) + c
+    if kind == "rotosolve":
+        x_min, y_min = qp.RotosolveOptimizer.min_analytic(E, f, E(0.0) if give_f0 else None)
+    else:
+        from pennylane.optimize.rotoselect import RotoselectOptimizer
+
+        x = RotoselectOptimizer._rotosolve(lambda xs, generators: E(xs[1]), [0.3, 0.7], None, 1)
+        x_min, y_min = float(x[1]), None
+    true_min = c - np.hypot(a, b)
+    bad = []
+    if abs(E(x_min) - true_min) > 1e-7 * max(1.0, abs(true_min)):
+        bad.append(f"objective at the returned position is {E(x_min):.9g}, the minimum is {true_min:.9g}")
+    if y_min is not None and abs(y_min - true_min) > 1e-7 * max(1.0, abs(true_min)):
+        bad.append(f"returned minimum value {y_min:.9g}, true minimum {true_min:.9g}")
+    if not (-np.pi / f - 1e-9 < x_min <= np.pi / f + 1e-9):
+        bad.append(f"returned position {x_min:.9g} outside (-pi/f, pi/f] = ({-np.pi / f:.6g}, {np.pi / f:.6g}]")
+    return bool(bad), f"{kind} closed form, frequency {f}, objective {a:.6g}*cos(f x) + {b:.6g}*sin(f x) + {c:.6g}: " + ("; ".join(bad) or "agrees with the true minimum")
+
+
+def roto_work(item):
+    import z3
+
+    kind, f, give_f0 = item
+    name = f"{kind} closed form, frequency {f}" + (", f0 supplied" if give_f0 else "")
+    if kind == "rotoselect":
+        RS = importlib.import_module("pennylane.optimize.rotoselect")
+        RS.float = lambda v: v  # shim: float(objective value) keeps the solver term
+
+    def b(S):
+        a, bb, c = S.real("a"), S.real("b"), S.real("c")
+        E = _sinusoid(S, a, bb, c, f)
+        if kind == "rotosolve":
+            x_min, y_min = qp.RotosolveOptimizer.min_analytic(E, f, E(0.0) if give_f0 else None)
+        else:
+            x = RS.RotoselectOptimizer._rotosolve(lambda xs, generators: E(xs[1]), [S.real("x0"), S.real("x1")], None, 1)
+            x_min, y_min = x[1], None
+        xa = S.param("xany", wrap=False)
+        return x_min, y_min, E(x_min), E(xa), (a, bb, c)
+
+    def consume(S, v, i):
+        x_min, y_min, e_min, e_any, (a, bb, c) = v
+
+        def rp(model):
+            vals = {k: model.get("vars", {}).get(k, 0.0) for k in ("a", "b", "c")}
+            ok, obs = _roto_num(kind, f, vals["a"], vals["b"], vals["c"], give_f0)
+            return ok, {"kind": "roto", "which": kind, "freq": f, "f0": give_f0, "values": vals, "observed": obs}
+
+        sig = f"{kind}:closed-form"
+        out = []
+        za = S.z3poly
+        out.append(obl.prove_claim(S, f"{name} (path {i}): objective(x) >= objective(returned position) for every x", za(e_any.p) >= za(e_min.p), replay=rp, signature=sig,
+                                   used_polys=[e_any.p, e_min.p], symbols=["a", "b", "c", "xany"]))
+        if y_min is not None:
+            out.append(obl.prove(S, f"{name} (path {i}): returned minimum value == objective(returned position)", [y_min], [e_min], replay=lambda m: rp(m), signature=sig, timeout=60))
+        PI = S.zvar(S.PIv)
+        fz = z3.RealVal(str(sx.F(f)))
+        xm = za(x_min.p)
+        out.append(obl.prove_claim(S, f"{name} (path {i}): returned position lies in (-pi/f, pi/f]", z3.And(xm * fz > -PI, xm * fz <= PI), replay=rp, signature=sig, used_polys=[x_min.p], symbols=["a", "b", "c"]))
+        return out
+
+    try:
+        return obl.run_instance(name, b, consume)
+    except (TypeError, AttributeError, IndexError, KeyError, ValueError) as e:
+        import traceback
+
+        return [{"name": name, "status": "unsupported", "detail": f"{e!r} {traceback.format_exc(limit=6)[-600:]}"}]
+    finally:
+        if kind == "rotoselect":
+            RS.__dict__.pop("float", None)
+
+
+def _dispatch(it):
+    return roto_work(it[1:]) if it[0] == "roto" else work(it)
+
+
 def run(ctx):
     ctx.level = "proof"
     items = []
@@ -263,16 +357,18 @@ def run(ctx):
             items.append((o, l, 3 if o in ("GradientDescent", "Momentum", "NesterovMomentum") else (1 if o == "Adam" and ctx.tier == "quick" else 2), False))
         items.append((o, "x[2]", 2, True))
         items.append((o, "data[2], w[2]", 2, True))
+    items += [("roto", "rotosolve", f, g) for f in ROTO_FREQS for g in (False, True)] + [("roto", "rotoselect", 1.0, False)]
     if ctx.only:
         items = [it for it in items if ctx.only in f"{it[0]} {it[1]}"]
     ctx.shapes = len(items)
     ctx.encode(qp.GradientDescentOptimizer.step_and_cost, qp.GradientDescentOptimizer.apply_grad, qp.MomentumOptimizer.apply_grad, qp.NesterovMomentumOptimizer.compute_grad,
-               qp.AdagradOptimizer.apply_grad, qp.RMSPropOptimizer.apply_grad, qp.AdamOptimizer.apply_grad)
+               qp.AdagradOptimizer.apply_grad, qp.RMSPropOptimizer.apply_grad, qp.AdamOptimizer.apply_grad, qp.RotosolveOptimizer.min_analytic, qp.RotoselectOptimizer._rotosolve)
     ctx.bound(parameters="all real parameter values and objective coefficients (quadratic objective with symbolic coefficients)", steps="2-3 consecutive steps from a fresh optimizer",
               hyper_parameters="defaults (0.1, 0.9, 0.99) and symbolic eta, momentum/decay/beta1, beta2 in (0,1)", layouts=list(LAYOUTS),
-              outside="QNGOptimizer (metric tensor), Rotosolve/Rotoselect (arctan2 / numeric minimisation), SPSA, ShotAdaptive, Riemannian, autograd itself (stubbed by the gradient oracle)")
+              rotosolve=f"closed-form single-frequency minimiser min_analytic for frequencies {ROTO_FREQS} and Rotoselect._rotosolve: objective a*cos(f x)+b*sin(f x)+c with symbolic a, b, c",
+              outside="QNGOptimizer (metric tensor), Rotosolve multi-frequency substeps (numeric brute/shgo minimisation) and the Rotosolve/Rotoselect step loops, SPSA, ShotAdaptive, Riemannian, autograd itself (stubbed by the gradient oracle)")
     ctx.assume("stub: the module-level get_gradient of the optimizer modules is replaced by an oracle with autograd's semantics (gradient and `forward` at the call arguments)",
                "sqrt(x): fresh r >= 0 with r*r == x; Adagrad/RMSProp/Adam are proved up to 1e-9", "parameters are object ndarrays carrying requires_grad")
     ctx.trust("reference update rules written from the class docstrings in checks/c61.py")
     ctx.rule = "one obligation per (optimizer, argument layout, step, claim); non-trivial = mentions symbolic parameters"
-    ctx.pmap(work, items, timeout_each=600)
+    ctx.pmap(_dispatch, items, timeout_each=600)
